@@ -1048,7 +1048,66 @@ def _whole_case(fn):
     return run
 
 
+# ---------------------------------------------------------------------------------------
+# sub-check: bases on the symmetry axis (r = 0 exactly, and the polar axis theta in {0, pi})
+# added after the independently seeded change C19-1 (generic Jacobian-based rotation, NaN at
+# r = 0) was missed: there the Jacobian is singular, but the basis given by the angular
+# coordinates is still the textbook one, finite, orthonormal and right-handed.
+# ---------------------------------------------------------------------------------------
+@st.composite
+def axis_cases(draw):
+    system = draw(st.sampled_from(["polar", "cyl", "sph"]))
+    n = draw(st.integers(1, 4))
+    pts = []
+    for _ in range(n):
+        r = draw(st.sampled_from([0.0, 0.0, -0.0, 5e-324, 1e-300]))
+        if system == "polar":
+            pts.append([r, draw(angle(0, 2 * math.pi))])
+        elif system == "cyl":
+            pts.append([r, draw(angle(0, 2 * math.pi)), draw(st.floats(-1e3, 1e3))])
+        else:
+            th = draw(st.one_of(st.floats(0.05, math.pi - 0.05), st.sampled_from([0.0, math.pi, math.pi / 2])))
+            rr = r if draw(st.booleans()) else draw(radius())
+            pts.append([rr, th, draw(angle(0, 2 * math.pi))])
+    return {"system": system, "points": pts, "batch": draw(st.booleans())}
+
+
+def check_axis(case):
+    system = case["system"]
+    c = make_system(system, None)
+    pts = np.array(case["points"], dtype=float)
+    dim = c.dim
+    if case["batch"]:
+        R = np.asarray(c.basis_rotation(pts))
+    else:
+        R = np.stack([np.asarray(c.basis_rotation(p)) for p in pts], axis=-1)
+    for k, p in enumerate(pts):
+        Rk = R[:, :, k]
+        where = f"{system} point {p.tolist()!r} (on the symmetry axis)"
+        if not np.all(np.isfinite(Rk)):
+            raise Violation(f"{where}: basis_rotation is not finite: {Rk.tolist()!r}", key=f"axis:{system}:finite")
+        if not np.allclose(Rk @ Rk.T, np.eye(dim), atol=1e-12, rtol=0):
+            raise Violation(f"{where}: basis_rotation is not orthonormal", key=f"axis:{system}:orthonormal")
+        if abs(float(np.linalg.det(Rk)) - 1) > 1e-12:
+            raise Violation(f"{where}: basis is not right-handed", key=f"axis:{system}:right-handed")
+        e = unit_vectors("sph", theta=p[1], phi=p[2]) if system == "sph" else unit_vectors(system, phi=p[1])
+        for j, name in enumerate(SYSTEM_ORDER[system]):
+            if not np.allclose(Rk[j], e[name], atol=1e-13, rtol=0):
+                raise Violation(f"{where}: basis vector e_{name} is {Rk[j].tolist()!r}, textbook "
+                                f"{e[name].tolist()!r}", key=f"axis:{system}:closed-form:{name}")
+        comps = np.arange(1.0, dim + 1)
+        got = np.asarray(c.vec_to_cart(p, comps))
+        want = sum(comps[j] * e[name] for j, name in enumerate(SYSTEM_ORDER[system]))
+        if not np.allclose(got, want, atol=1e-12, rtol=0):
+            raise Violation(f"{where}: vec_to_cart gives {got.tolist()!r}, expected {np.asarray(want).tolist()!r}",
+                            key=f"axis:{system}:vec_to_cart")
+    return {"nt": True, "labels": [f"system:{system}", f"batch:{case['batch']}"]}
+
+
 SUBCHECKS = [
+    SubCheck("bases_on_axis", strategy=axis_cases, check=check_axis, mode="pure",
+             budget={"quick": 200, "thorough": 3000}, shards={"quick": 1, "thorough": 1},
+             rule="non-trivial = every case (points with r = 0 or theta in {0, pi})"),
     SubCheck("bases", strategy=bases_cases, check=check_bases, mode="pure",
              budget={"quick": 600, "thorough": 10000}, shards={"quick": 1, "thorough": 2},
              rule="non-trivial = curvilinear system (every point checks orthonormality, handedness, Jacobian "
